@@ -67,3 +67,43 @@ package schema
 //@ func (Node).Config
 //@   nopanic
 //@   ensures result == node_config(self)
+//@ func (Type).Default
+//@   ensures result0 == type_default(self) && result1 == type_hasdefault(self)
+
+// ---------------------------------------------------------------------------
+// RangeBoundarySlicer: the interface the compiler uses to check range/length restrictions (C13).
+// Its methods are functions of the receiver; each implementation is verified against them.
+//@ func (RangeBoundarySlicer).Len
+//@   nopanic
+//@   ensures result == rb_len(self) && result >= 0
+//@ func (RangeBoundarySlicer).GetStart
+//@   params i
+//@   ensures result == rb_start(self, i)
+//@ func (RangeBoundarySlicer).GetEnd
+//@   params i
+//@   ensures result == rb_end(self, i)
+//@ func (RangeBoundarySlicer).LessThan
+//@   params first second
+//@   ensures result == rb_lt(self, first, second)
+//@ func (RangeBoundarySlicer).GreaterThan
+//@   params first second
+//@   ensures result == rb_gt(self, first, second)
+//@ func (RangeBoundarySlicer).String
+//@   params i
+
+//@ func (RbSlice).LessThan
+//@   ensures result == rb_lt(iface(rangeBdry), first, second)
+//@ func (RbSlice).GreaterThan
+//@   ensures result == rb_gt(iface(rangeBdry), first, second)
+//@ func (UrbSlice).LessThan
+//@   ensures result == rb_lt(iface(rangeBdry), first, second)
+//@ func (UrbSlice).GreaterThan
+//@   ensures result == rb_gt(iface(rangeBdry), first, second)
+//@ func (DrbSlice).LessThan
+//@   ensures result == rb_lt(iface(rangeBdry), first, second)
+//@ func (DrbSlice).GreaterThan
+//@   ensures result == rb_gt(iface(rangeBdry), first, second)
+//@ func (LbSlice).LessThan
+//@   ensures result == rb_lt(iface(rangeBdry), first, second)
+//@ func (LbSlice).GreaterThan
+//@   ensures result == rb_gt(iface(rangeBdry), first, second)
